@@ -82,7 +82,9 @@ def run_variant(root, v):
     for ln in SETUP:
         gw.logic(ln)
     pers.save_sensors()                       # an earlier complete save
+    state_old = _proj(gw)
     gw.logic("1;1;1;0;2;1")                    # something changed: the next scheduled save has work to do
+    state_new = _proj(gw)                      # what the scheduled (slow) save serialises
     inside, release = threading.Event(), threading.Event()
     slow = []                                  # ident of the thread whose save is slow (the first one to get there)
     lock = threading.Lock()
@@ -177,6 +179,7 @@ def run_variant(root, v):
             if why:
                 return {"variant": list(v), "setup": why}
     out["errors"] = errors
+    out["state_old"], out["state_new"] = state_old, state_new
     out["ids_given"] = [m.split(";")[5].strip() for m in tr.sent if m.startswith("255;255;3;0;4;")]
     tr2 = _Tr()
     g2 = _gw(flav, path, tr2)
@@ -220,7 +223,17 @@ def judge(o, pid):
     return out
 
 
-def run_all(res, pid, thorough=False):
+def loaded_token(o):
+    """What the start-up after the stop loaded, in the model's vocabulary (TOld / TNew / TNext of Model/FsConc.v)."""
+    if o.get("load_error"):
+        return "raise"
+    for tok, key in (("ok:next", "held"), ("ok:new", "state_new"), ("ok:old", "state_old")):
+        if o["loaded"] == o.get(key):
+            return tok
+    return "ok:" if not o["loaded"] else "other"
+
+
+def run_all(res, pid, thorough=False, collect=None):
     from harness import core
     root = str(core.BUILD / "scratch" / ("slow-%d" % os.getpid()))
     n = 0
@@ -236,7 +249,9 @@ def run_all(res, pid, thorough=False):
             except Exception as exc:
                 res.violate("slow-save/harness", f"{v}: {type(exc).__name__}: {exc}", case, kind="harness", found_input=False)
                 continue
-            js = judge(o, pid)
+            if collect is not None:
+                collect.append((v, o))
+            js = judge(o, "C14" if pid == "C12" else pid)
             for key, what, concrete in js:
                 if concrete:
                     res.violate("slow-save/" + key, f"{v[0]} gateway, {v[1]}, slow save paused {v[2]}, {v[3]}: {what}", case)
